@@ -1465,3 +1465,161 @@ PROPS['C09'] = _lay_props(['KVerif.Props.C09'],
 PROPS['C09']['norm_impl'] = _c09_norm
 PROPS['C09']['norm_model'] = lambda o: o if o.startswith('crash indexOOB(') else _norm_crash(o)
 PROPS['C09']['stats'] = _c09_stats
+
+# ----------------------------------------------------------------------------- C03
+def _c03_fields(out):
+    return dict((f.split(' ', 1) + [''])[:2] for f in out.split(' | ')) if ' | ' in out or out.startswith(('fe ', 'load ')) else {}
+
+
+def _c03_norm(out):
+    """The model predicts the loader's diagnostic exactly only when the modelled front end produces it
+    (lexical/parenthesis errors; template errors when nothing runs before template expansion).
+    Otherwise any non-crashing outcome with an in-bounds location is the single class `total`.
+    The trailing ` | msg ...` field is statistics only."""
+    parts = [p for p in out.split(' | ') if not p.startswith('msg ')]
+    f = _c03_fields(' | '.join(parts))
+    if 'load' not in f:
+        return ' | '.join(parts)
+    predicted = f.get('fe', '').startswith('err') or (f.get('tp', '').startswith('err') and f.get('pre', '') == '0')
+    load = f['load']
+    if not predicted and (load == 'ok' or load == 'diag none' or re.fullmatch(r'diag in (main|inc) \d+ \d+', load)):
+        parts = [('load total' if p.startswith('load ') else p) for p in parts]
+    return ' | '.join(parts)
+
+
+def _c03_project(out):
+    f = _c03_fields(out)
+    load = f.get('load', out)
+    if load in ('ok', 'total', 'diag none') or re.fullmatch(r'diag in (main|inc) \d+ \d+', load):
+        # every other field must not be a crash of the real front-end functions either
+        for k, v in f.items():
+            if k != 'load' and v.startswith('crash'):
+                return out
+        return 'total'
+    return out
+
+
+def _c03_kind(case):
+    t = case.split(' ')
+    return t[2].split(':')[0] if len(t) > 2 else '?'
+
+
+def _c03_nontrivial(case, impl):
+    # a case counts when the text got past the lexer (a tree was built) or exercised a lexical error path,
+    # i.e. everything except unparseable harness lines
+    return not impl.startswith('harness-error')
+
+
+def _c03_stats(cases, impl):
+    import collections
+    d = collections.Counter()
+    msgs = set()
+    for c, i in zip(cases, impl):
+        t = c.split(' ')
+        d['kind_' + _c03_kind(c)] += 1
+        d['mode_' + t[1]] += 1
+        n = len(t[3]) // 2 if len(t) > 3 and t[3] != '-' else 0
+        d['text_lt_256B' if n < 256 else 'text_lt_4KiB' if n < 4096 else 'text_ge_4KiB'] += 1
+        f = _c03_fields(' | '.join(p for p in i.split(' | ')))
+        load = f.get('load', i)
+        d['load_' + ('ok' if load == 'ok' else 'diag_nospan' if load == 'diag none' else 'diag_span' if load.startswith('diag in ') else 'CRASH_OR_OUT')] += 1
+        fe = f.get('fe', '')
+        d['fe_' + (fe.split(' ')[0] if fe else 'none')] += 1
+        if fe.startswith('err'):
+            d['fe_err_' + fe.split(' ')[-1]] += 1
+        tp = f.get('tp', '')
+        if tp:
+            d['tp_' + tp.split(' ')[0]] += 1
+        if 'msg' in f:
+            msgs.add(f['msg'])
+        if len(t) > 4:
+            d['with_include_files'] += 1
+    d['distinct_diagnostic_messages'] = len(msgs)
+    return dict(d)
+
+
+def _c03_describe(case):
+    import binascii
+    t = case.split(' ')
+    try:
+        un = lambda h: binascii.unhexlify(h if h != '-' else '').decode('utf-8', 'replace')
+        s = f'mode={t[1]} ({"cfg::new_from_str" if t[1] == "s" else "cfg::new_from_file"}) generator={t[2]}\n--- configuration text ---\n{un(t[3])}'
+        for inc in t[4:]:
+            n, c = inc.split(':')
+            s += f'\n--- file {un(n)} ---\n{un(c)}'
+        return s
+    except Exception:
+        return case
+
+
+def _c03_shrink(case):
+    """smaller case lines: drop include files, drop top-level forms, drop lines, halve the text"""
+    import binascii
+    t = case.split(' ')
+    if len(t) < 4:
+        return
+    try:
+        text = binascii.unhexlify(t[3] if t[3] != '-' else '').decode('utf-8')
+    except Exception:
+        return
+    enc = lambda s: binascii.hexlify(s.encode()).decode() or '-'
+    mk = lambda s, incs=t[4:]: ' '.join(t[:3] + [enc(s)] + list(incs))
+    for k in range(len(t[4:])):
+        yield ' '.join(t[:4] + t[4:4 + k] + t[5 + k:])
+    # top-level forms (balanced parentheses at depth 0, ignoring strings/comments: good enough to shrink)
+    forms, depth, start = [], 0, None
+    for i, ch in enumerate(text):
+        if ch == '(':
+            if depth == 0:
+                start = i
+            depth += 1
+        elif ch == ')':
+            depth = max(0, depth - 1)
+            if depth == 0 and start is not None:
+                forms.append((start, i + 1)); start = None
+    if 1 < len(forms) <= 400:
+        for a, b in forms:
+            yield mk(text[:a] + text[b:])
+    lines = text.split('\n')
+    if 1 < len(lines) <= 400:
+        for k in range(len(lines)):
+            yield mk('\n'.join(lines[:k] + lines[k + 1:]))
+    n = len(text)
+    if n > 1:
+        yield mk(text[:n // 2]); yield mk(text[n // 2:])
+    if n <= 200:
+        for k in range(n):
+            yield mk(text[:k] + text[k + 1:])
+
+
+PROPS['C03'] = {
+    'lean_modules': ['KVerif.Props.C03'],
+    'norm_impl': _c03_norm,
+    'oracle_project': _c03_project,
+    'nontrivial': _c03_nontrivial,
+    'shrink_candidates': _c03_shrink,
+    'describe': _c03_describe,
+    'per_case_timeout': 0.05,
+    'rule': 'every case is a UTF-8 text (<= 64 KiB, parenthesis depth <= 200) with its include files, loaded by cfg::new_from_str or '
+            '(1 in 8) cfg::new_from_file; generated as: the 6 reproduced defects of DESIGN §7 and hand-written variable/template texts; '
+            'every cfg_samples/*.kbd, every docs/config.adoc listing that reads as s-expressions (completed with defsrc/deflayer), every '
+            '"(def"-containing string literal of parser/src/cfg/tests*, src/tests*, and parser/test_cfgs/*.kbd, unmodified and under 1-3 '
+            'structure-aware mutations (delete/duplicate/swap/splice/wrap/unwrap sub-expressions, atom -> (), number -> boundary value, '
+            'name -> unknown or (list-/atom-/concat-) self-referential variable or alias, truncate/extend argument lists, rename list head to '
+            'any list action, odd atoms and parser keywords, template wrappers, top-level reordering); every list action of list_actions.rs '
+            'with 0..5 arguments of plausible kinds in 17 contexts; top-level items and defcfg options with odd arguments; dictionary/chord '
+            'files for defzippy and defchordsv2 include; nesting to depth 197; bounded doubling; a seed split into main + mutated included '
+            'file; raw character-level mutations (quotes, raw-string and comment delimiters, BOM, multi-byte characters, truncation); all '
+            'strings of <= 3 front-end tokens and random longer ones. A case is non-trivial unless the harness rejects the line; distinct = '
+            'distinct case line. Compared with the model: sexpr::parse (tree, spans, line counters, diagnostic class), expand_templates, '
+            'parse_vars + $name resolution, and the loader\'s diagnostic whenever the modelled front end produces it.',
+    'stats': _c03_stats,
+    'trusted_base': ['Model/SExpr.lean and Model/Template.lean as transcriptions of cfg/sexpr.rs, cfg/deftemplate.rs, parse_vars/parse_list_var/push_all_atoms '
+                     'of cfg/mod.rs and str_ext.rs (checked differentially on every case, not proved)',
+                     'the oracle in harness/src/c03.rs (reads span and attached source of the miette report; renders it with {:?})',
+                     'miette 5.10 rendering and the ~90 per-action argument parsers of cfg/mod.rs: exercised, not modelled',
+                     'hook verif_parse_vars (cfg(jtroo_kanata_verif), add-only wrapper around the private parse_vars)'],
+    'assumptions': ['the text is valid UTF-8 (a Rust &str); theorems about the model carry no size or depth bound',
+                    'correspondence and oracle: text <= 64 KiB, parenthesis depth <= 200, per-case watchdog of the runner (hang = no answer within the batch budget)',
+                    'the green check depends on fix-1..fix-8 being applied to the source (see KNOWN_FINDINGS.jsonl / report); on the pinned source it reports the first unrepaired defect'],
+}
